@@ -143,6 +143,21 @@ impl<const LIMBS: usize> MontyParams<LIMBS> {
     }
 }
 
+#[cfg(crypto_bigint_verif)]
+impl<const LIMBS: usize> MontyParams<LIMBS> {
+    /// Verification hook: the private fields
+    /// `(one, r2, r3, mod_neg_inv, mod_leading_zeros)`.
+    pub const fn verif_fields(&self) -> (Uint<LIMBS>, Uint<LIMBS>, Uint<LIMBS>, Limb, u32) {
+        (
+            self.one,
+            self.r2,
+            self.r3,
+            self.mod_neg_inv,
+            self.mod_leading_zeros,
+        )
+    }
+}
+
 impl<const LIMBS: usize> ConditionallySelectable for MontyParams<LIMBS> {
     fn conditional_select(a: &Self, b: &Self, choice: Choice) -> Self {
         Self {
